@@ -199,6 +199,7 @@ class Interp:
     def __init__(self, repo, cls=None, sigma=None, attrs=None, heap=None, domains=(), io=None, hooks=None, join_atoms=False):
         self.repo = repo
         self.cls = cls
+        self.last_inlined = {}
         self.sigma = dict(sigma or {})
         self.consulted = []
         self.events = []
@@ -1045,7 +1046,7 @@ class Interp:
                 return wrap(num(sp.Symbol("%s_L%d" % (nm, s.lineno), integer=True, nonnegative=True), cfg=it.cfg, cx=nm if it.cfg else None, dep=it.dep), tag)
 
             return ("range", it.cx or unparse(node)[:40]), elems
-        if it.kind in ("list", "tuple") and it.items is not None and it.obj is None and len(it.items) <= 12 and it.cfg:
+        if it.kind in ("list", "tuple") and it.items is not None and it.obj is None and (len(it.items) <= 12 and it.cfg or 0 < len(it.items) <= 4):
             items = list(it.items)
             if enum:
                 return "unroll", [("lit%d" % i, Val("tuple", items=(num(i, cx=str(i)), e), cfg=True)) for i, e in enumerate(items)]
@@ -1867,6 +1868,7 @@ class Interp:
         for k, v in kwargs.items():
             bind[k] = v
         self.emit("call", n, st, callee=func, args=args, kwargs=kwargs, inlined=True)
+        self.last_inlined[id(n)] = func
         saved = st.env
         saved_ctrl, saved_preds = st.ctrl, st.preds
         val, out = self.call_function(func, bind, st, n)
